@@ -70,6 +70,11 @@ func genC05(seed int64, tier string, emit func(run.Case)) {
 		add(k+" ", "keyword")
 		add(" "+k, "keyword")
 		add(k+".x", "keyword")
+		// Unicode simple case folding: ſ (U+017F) folds to s, K (U+212A, Kelvin) to k
+		for _, v := range c05FoldVariants(k) {
+			add(v, "keyword-fold")
+			add(r.RandCase(v), "keyword-fold")
+		}
 	}
 	for _, s := range []string{"0", "1", "-1", "1.5", "1e3", "0x10", "007", "+5", ".5", "5.", "NaN", "Inf", "1_000", "١٢٣",
 		"\\", "\\\\", "\\n", "\\\"", "a\\", "a\nb", "a\r\nb", "\ta", "a\t", "a  b", "${x}", "$x", "a${b}c", "$", "${", "#", "a#b", "a #b",
@@ -95,6 +100,29 @@ func genC05(seed int64, tier string, emit func(run.Case)) {
 	}
 }
 
+// c05FoldVariants returns spellings of k that are equal to k under Unicode simple case
+// folding (strings.EqualFold) but not under ASCII lower-casing.
+func c05FoldVariants(k string) []string {
+	var out []string
+	for i, c := range k {
+		var repl string
+		switch c {
+		case 's':
+			repl = "\u017f"
+		case 'k':
+			repl = "\u212a"
+		default:
+			continue
+		}
+		out = append(out, k[:i]+repl+k[i+1:])
+	}
+	if strings.ContainsAny(k, "sk") {
+		all := strings.NewReplacer("s", "\u017f", "k", "\u212a").Replace(k)
+		out = append(out, all, strings.ToUpper(k[:1])+all[len(k[:1]):])
+	}
+	return out
+}
+
 // c05Class names what kind of string s is (for signatures; never the string itself).
 func c05Class(s string) string {
 	ls := strings.ToLower(strings.TrimSpace(s))
@@ -112,6 +140,11 @@ func c05Class(s string) string {
 			return "reserved-keyword"
 		}
 		return "reserved-keyword-in-other-case-or-padded"
+	}
+	for _, k := range gen.Keywords {
+		if strings.EqualFold(k, strings.TrimSpace(s)) {
+			return "keyword-under-unicode-case-folding"
+		}
 	}
 	switch {
 	case strings.ContainsAny(s, "\n\r"):
